@@ -94,6 +94,9 @@ struct R3Monitor {
       Key k{e.from, e.d->src, e.d->dst, mid};
       Tx &tx = m[k];
       Params p = par(e.from, e.d->dst);
+      // a message id may be used again once EXCHANGE_LIFETIME (247 s with default parameters) has passed: a new session to the
+      // same peer draws a new random start value. A concluded exchange that old is forgotten.
+      if (!tx.t.empty() && (tx.t_ack || tx.t_rst || tx.t_resp || tx.nacks) && e.t_ns - tx.t.back() > 247ull * 1000000000ull) { tx = Tx(); w.count("probe.mid_reused_after_exchange_lifetime"); }
       if (tx.t.empty()) {
         tx.bytes = b;
         r1::Msg mm;
